@@ -265,6 +265,19 @@ def run(ctx):
         tol_deep = min(TOL, 0.02 * 2 * np.pi / 2 ** n)          # a fiftieth of a tile width, for the deepest tiles
         if err > tol_deep or bool(one.increasing) != lattice.inc(n, x, y):
             ctx.violation("C04:single:deep", "create_single_tile((%d, %d, %d)) [%s, integers given as %s] is %.2e away from the subdivision of the documented layout" % (n, x, y, csname, rep, err), {"pos": (n, x, y), "cs": csname, "ints": rep})
+        if k % 2 == 0:
+            # route 4 at this depth: the point lookup of the tile's centre (psi) names this tile
+            cen = psi.centre(n, x, y)
+            clon, clat = (float(v_) for v_ in lattice.vec_to_lonlat(cen))
+            try:
+                lk = toast.toast_tile_for_point(n, clat, clon, coordsys=cs)
+                ctx.count()
+                if tuple(lk.pos) != (n, x, y):
+                    ctx.violation("C04:route:lookup-deep", "point lookup of the centre of tile (%d, %d, %d) [%s] returns tile %s" % (n, x, y, csname, tuple(lk.pos)), {"pos": (n, x, y), "cs": csname})
+                elif float(np.abs(toastlat.tile_vecs(lk) - toastlat.tile_vecs(one)).max()) > XTOL:
+                    ctx.violation("C04:route:lookup-deep", "tile (%d, %d, %d) [%s] from point lookup and from single-tile construction have different corners" % (n, x, y, csname), {"pos": (n, x, y), "cs": csname})
+            except Exception as e:  # noqa
+                ctx.violation("C04:route:lookup-deep", "toast_tile_for_point raised %r for the centre of (%d, %d, %d) [%s]" % (e, n, x, y, csname), {"pos": (n, x, y), "cs": csname})
         if n < 30:
             # nesting at this depth: the four children tile the parent (shared corners / edge midpoints identical)
             ov = toastlat.tile_vecs(one)
